@@ -653,6 +653,21 @@ def make_numpy_shim():
         'around': _round,
     }
 
+    def _mk_alloc(name):
+        realf = getattr(_np, name)
+
+        def alloc(shape, dtype=float, *a, **k):
+            if np.__dict__.get('_objfloat') and dtype is not None and \
+                    _np.dtype(dtype).kind == 'f':
+                # "real" float mode: arrays the library allocates for
+                # results must be able to hold symbolic reals
+                r = realf(shape, float, *a, **k).astype(object)
+                return r.view(SymNDArray)
+            return realf(shape, dtype, *a, **k)
+        return alloc
+    for _n in ('zeros', 'ones', 'empty'):
+        over[_n] = _mk_alloc(_n)
+
     class _Shim(types.ModuleType):
         def __init__(self, name, real, table):
             types.ModuleType.__init__(self, name)
